@@ -16,7 +16,7 @@
      runH_quiet        hooks that never raise change nothing: runH = run with every record expanded
                        into "entry appended; hook 0 called; hook 1 called; ..."
      runH_restores     for EVERY hook behaviour the classes are restored exactly as without hooks
-     raising_hook_witness   a raising hook is NOT transparent: under a record-first wrapper the
+     (Property.v: C20_raising_hook_aborts_operation)  observation: with a raising hook, under a record-first wrapper the
                        original is never called (heap untouched, exception of the hook comes out)  *)
 From Coq Require Import ZArith List Bool String Lia.
 From IRV Require Import Base.Exn C20.Types Gen.C20Gen C20.Model C20.Proofs C20.Proofs2.
